@@ -16,7 +16,9 @@ EXPLANATION = (
     "scoSetUndoState(). U2: in compGLoopEval and compInteractiveLoop, on every CFG path from one call of compFileFront to "
     "the next (around the loop) comsgFini() and then comsgInit() are called and setjmp on compFintJmpBuf is re-armed; the "
     "path from the function entry to the first compFileFront also passes comsgInit() and the setjmp. "
-    "Not decided: equality of interactive and batch output; symbol-table state after the undo.")
+    "U3: in compFileFront every CFG path from the passing edge of the compIsMoreAfterSyntax() test to the function's exit calls "
+    "compPhaseScoBind (the binder's entry applies the pending roll-back of a rejected step; the flag scoUndoState has the single "
+    "setter scoSetUndoState). Not decided: equality of interactive and batch output; symbol-table state after the undo.")
 
 ERR = [("call", "comsgErrorCount", False)]
 
@@ -78,6 +80,49 @@ def u1(rep, f):
     rep.floor("error tests after scope binding", n, 2)
 
 
+def u3(rep, f):
+    """Every step that passes the syntax gate reaches the binder (whose entry applies the pending roll-back)."""
+    fn = f.func("compFileFront")
+    cfg = common.CFG(fn)
+    gate = [("call", "compIsMoreAfterSyntax", True)]
+    passing, _ = gates.passing_edges(cfg, gate)
+    if not passing:
+        raise AnalysisBroken("compFileFront: the test of compIsMoreAfterSyntax() was not found")
+    n = 0
+    for (bid, succ) in sorted(passing):
+        n += 1
+        cond = cfg.cond_edges(bid)[0]
+        where = "axlcomp.c:%d (compFileFront)" % cond["l"]
+        key = "binder-reached-after-syntax-gate@%d" % n
+        p = cfg.path_avoiding(succ, None, is_call("compPhaseScoBind"), src_idx=-1)
+        if p is not None:
+            rep.violation("U3", key, where,
+                          "a path leaves compFileFront after the syntax gate passed without calling compPhaseScoBind: the binder's "
+                          "entry is where the roll-back of a previously rejected interactive step is applied (scoUndoState), so a "
+                          "step that skips it leaves the rejected step's bindings in the session for the following steps",
+                          detail={"cfg_path": p[:12]})
+        else:
+            rep.ok("U3", key, sample={"gate": where, "rule": "passing edge -> exit always passes compPhaseScoBind()"})
+    rep.floor("syntax-gate tests in compFileFront", n, 1)
+    # the binder applies the pending roll-back: scoUndoState is read in the binder's unit and only set by scoSetUndoState
+    fs = common.extract("scobind.c", all_trees=True)
+    readers = set()
+    writers = {}
+    for name, g in fs.funcs.items():
+        if "body" not in g or not g.get("file", "").endswith("scobind.c"):
+            continue
+        for x in common.walk(g["body"]):
+            if x["k"] == "BinaryOperator" and x["op"] == "=" and strip(x["c"][0]) is not None and strip(x["c"][0]).get("n") == "scoUndoState":
+                writers.setdefault(name, []).append(const_value(x["c"][1]))
+            elif x["k"] == "DeclRefExpr" and x["n"] == "scoUndoState":
+                readers.add(name)
+    setters = sorted(nm for nm, vs in writers.items() if any(v not in (0,) for v in vs))
+    if setters == ["scoSetUndoState"]:
+        rep.ok("U3", "undo-flag-single-setter")
+    else:
+        rep.violation("U3", "undo-flag-single-setter", "scobind.c", "scoUndoState is set by %s; expected scoSetUndoState only" % setters)
+
+
 def is_setjmp(n):
     if n["k"] != "CallExpr":
         return False
@@ -133,6 +178,7 @@ def run(tier, only=None):
     f = common.extract("axlcomp.c", all_cfg=True)
     u1(rep, f)
     u2(rep, f)
+    u3(rep, f)
     rep.analysed_count("functions", 3)
     rep.assumptions.append("the CFG search is path-insensitive except for the fintMode == FINT_LOOP assumption in U1")
     return rep
